@@ -898,8 +898,8 @@ class OverlayStore(Store):
         if self.contains(key):
             if len(self.listdir(key)) == 0:
                 if self.overlay.contains(key):
-                    self.overlay.remove(key)
-                else:
+                    self.overlay.removedir(key)
+                if self.fallback.contains(key):
                     self.removed.add(key)
         self.on_removed(key)
 
